@@ -16,7 +16,7 @@ From Coq Require Import List NArith Bool Lia Arith.
 From Storage Require Import Base.Bytes Base.BytesFacts Store.Model Store.AListFacts Store.FrameProofs.
 From Storage Require Import Store.UniqueProofs Store.WfSchema Store.SetIdxProofs Store.WfSetIdx.
 From Storage Require Import Store.FkProofs Store.FkDelete Store.FkWf.
-From Storage Require Import Store.NoTrace Store.NoTraceInv Store.NoTraceWrite Store.NoTraceWf Store.NoTraceProofs.
+From Storage Require Import Store.NoTrace Store.NoTraceFacts Store.NoTraceInv Store.NoTraceWrite Store.NoTraceWf Store.NoTraceProofs.
 From Storage Require Import Store.NonNullProofs Store.UniqueChildProofs.
 From Storage Require Import Store.Integrity Store.IntegrityUnique Store.IntegritySet Store.IntegrityFk Store.IntegrityLinks
   Store.IntegrityProofs.
@@ -74,7 +74,8 @@ Qed.
 (* ---------------------------------------------------------------- the check of the whole schema *)
 Definition wf_job_b (sch : schema) (j : job) : bool :=
   match j with
-  | JLink _ _ => true                                  (* link collections: covered by wf_notrace_b *)
+  | JLink s (_, os, _) => is_rootb sch s && is_rootb sch os   (* link collections between root stores; symmetry etc.: wf_notrace_b
+                                                                  (which since the C06 child-level generalisation also accepts child stores) *)
   | JCons s (CUnique f _) => if is_child sch s then wf_cunique_b sch s f else wf_unique_b sch s f
   | JCons s (CSetIdx f) => wf_setidx_b sch s f
   | JCons s (CFkIndex f t b _) => wf_fk_b sch s f t (Some b)
@@ -135,8 +136,9 @@ Proof.
   pose proof (wf_notrace_b_sound sch Hnt) as W. split; [exact W|].
   intros j Hj. specialize (Hjobs j Hj). pose proof (job_in_schema sch j Hj) as Hin.
   destruct j as [s [[lf os] of_]|s k]; cbn [job_hyp wf_job_b] in *.
-  - rewrite <- links_of_same in Hin. destruct (wp_link_root sch W _ _ _ _ Hin) as [A B].
-    split; [exact A|]. split; [exact B|]. apply (wp_link_sym sch W _ _ _ _ Hin).
+  - rewrite <- links_of_same in Hin. apply andb_prop in Hjobs as [A B].
+    apply is_rootb_root in A. apply is_rootb_root in B. destruct A as [A1 A2]. destruct B as [B1 B2].
+    split; [split; assumption|]. split; [split; assumption|]. apply (wp_link_sym sch W _ _ _ _ Hin).
   - destruct k as [f nl|f|f t b nl|b|f t nl|rs f cs|]; try exact I.
     + destruct (is_child sch s); [apply wf_cunique_b_sound; exact Hjobs | apply (proj2 (wf_unique_b_sound sch s f Hjobs))].
     + apply wf_setidx_b_sound. exact Hjobs.
@@ -237,8 +239,8 @@ Section Reachable.
     intros Hnt Hh Hin. cbn [job_hyp] in Hh. destruct Hh as [[Hcs Hrs] [[Hco Hro] _]].
     rewrite <- links_of_same in Hin.
     intros i Hpi x Hx. unfold lset, get_set in Hx. rewrite Hrs in Hx.
-    assert (In x (eset st s i lf)) as Hx' by exact Hx.
-    apply (final_links_symmetric sch Hnt fuel txs s lf os of_ i x Hin) in Hx'.
+    assert (In x (eset st (root_of sch s) i lf)) as Hx' by (rewrite Hrs; exact Hx).
+    apply (proj1 (proj1 (final_links_symmetric sch Hnt fuel txs s lf os of_ i x Hin))) in Hx'. rewrite Hro in Hx'.
     unfold eset in Hx'. unfold oset, get_set, present. rewrite Hro, Hco.
     destruct (get_ent st os x) as [e|]; [|destruct Hx']. split; [reflexivity | exact Hx'].
   Qed.
